@@ -410,6 +410,63 @@ def check(run, prog, tier):
             run.ob("C01-f", inst, ok, "%s — %s" % (show(n), "stack-space check dominates" if guarded else ("a pop precedes it (net non-increasing)" if popped else "no stack-space check and no preceding pop")),
                    f.file, n.get("l"), f.name, what="%s pushes onto the value stack without checking for space (the stack has only a few slots of slack past end_of_stack)" % (f.name + label))
 
+    # ---------------------------------------------------------------- C01-f bulk advances
+    # `sp += E`: the whole amount must be covered by a check against end_of_stack with the same amount
+    for f in funcs:
+        ordb = 0
+        for b, i, n in sorted([(b, i, n) for b, i, n in f.nodes() if n.get("k") == "Asg" and n.get("op") == "+=" and strip(n["L"]).get("k") == "Ref" and strip(n["L"]).get("n") == "sp" and strip(n["L"]).get("d") == "global"], key=lambda x: x[2].get("l") or 0):
+            amt = strip(n["R"])
+            cv = const_val(amt)
+            run.saw(f)
+            label = ""
+            if f.name == "eval_instruction":
+                sg = cfgq.switch_guard(f, b.id)
+                labs = sorted({(l.get("src") or l.get("k")) for l in (sg[1] if sg else []) if l})
+                label = ":" + "/".join(labs[:2])
+            inst = "bulk-push:%s:%s%s:%d" % (rel(f.file), f.name, label, ordb)
+            ordb += 1
+            def linform(e, sign=1):
+                """(sorted tuple of (name, coefficient), constant) of a +/- expression over variables, or None"""
+                e = strip(e)
+                v = const_val(e)
+                if v is not None:
+                    return ({}, sign * v)
+                if e.get("k") == "Ref":
+                    return ({e.get("n"): sign}, 0)
+                if e.get("k") == "Bin" and e.get("op") in ("+", "-"):
+                    a = linform(e["L"], sign)
+                    b_ = linform(e["R"], sign if e["op"] == "+" else -sign)
+                    if a is None or b_ is None:
+                        return None
+                    d = dict(a[0])
+                    for k2, c2 in b_[0].items():
+                        d[k2] = d.get(k2, 0) + c2
+                    return ({k2: c2 for k2, c2 in d.items() if c2}, a[1] + b_[1])
+                return None
+            lf_amt = linform(amt)
+            how = None
+            # (a) the advance is itself the operand of the comparison:  if ((sp += n) >= end_of_stack) { undo; raise }
+            c = f.branch_cond(b.id)
+            if c is not None and any(x is n for x in walk(c)) and "end_of_stack" in show(c):
+                how = "the advanced pointer is compared with end_of_stack in the same condition"
+            # (b) a dominating test  sp + E >= end_of_stack  (possibly a conjunct of a raising branch) with the same amount
+            if how is None:
+                for bid in f.reachable():
+                    cc = f.branch_cond(bid)
+                    if cc is None or not f.dominates(bid, b.id) or bid == b.id:
+                        continue
+                    for x in walk(cc):
+                        if x.get("k") == "Bin" and x.get("op") in (">=", ">") and "end_of_stack" in show(x["R"]):
+                            lf = linform(x["L"])
+                            if lf is not None and lf_amt is not None and lf[0].get("sp") == 1:
+                                rest = ({k2: c2 for k2, c2 in lf[0].items() if k2 != "sp"}, lf[1])
+                                if rest == lf_amt:
+                                    how = "dominated by a comparison of sp + (%s) with end_of_stack" % show(amt)[:30]
+            if how is None and cv is not None and cv <= 0:
+                how = "non-positive constant"
+            run.ob("C01-f", inst, how is not None, "%s - %s" % (show(n), how or "no comparison of sp + (%s) with end_of_stack dominates this advance" % show(amt)), f.file, n.get("l"), f.name,
+                   what="%s advances the value-stack pointer by %s without checking that the evaluator stack has room for all of it" % (f.name + label, show(amt)))
+
     # ---------------------------------------------------------------- C01-h
     LEN_SINKS = {"memcpy": (2,), "memmove": (2,), "strncpy": (2,), "memset": (2,), "new_string": (0,), "int_new_string": (0,), "xalloc": (0,), "malloc": (0,), "realloc": (1,),
                  "extend_string": (1,), "int_extend_string": (1,), "__builtin_memcpy": (2,)}
@@ -501,3 +558,26 @@ def check(run, prog, tier):
                    "%s: operand %d `%s` is a %s header, not its ->item storage" % (show(n)[:60], bad[0] + 1, bad[2], bad[1]), f.file, n.get("l"), f.name,
                    what="%s copies from/to the header of an LPC container instead of its item storage" % f.name)
     run.need(nm >= 10, "bulk copies touching LPC container storage (found %d)" % nm)
+
+    # ---- C01-l iterator cursors: every advance of the byte cursor is matched by a decrement of the bytes-left counter
+    run.rule("C01-l", "foreach over a string (eval_instruction): on every path on which the hidden iterator's byte cursor u.lvalue_byte advances, its bytes-left counter (subtype of the same slot) is decreased before the opcode ends; a path that advances without counting reads past the end of the string", 1)
+    ei = run.need(prog.func("eval_instruction"), "eval_instruction")
+    adv = [(b, i, n) for b, i, n in ei.nodes() if ((n.get("k") == "Asg" and n.get("op") == "+=") or (n.get("k") == "Un" and n.get("op") == "++")) and strip(n["L"] if n.get("k") == "Asg" else n["e"]).get("k") == "Mem" and strip(n["L"] if n.get("k") == "Asg" else n["e"]).get("f") == "lvalue_byte"]
+    run.need(adv, "advances of u.lvalue_byte in eval_instruction")
+    ordl = 0
+    for b, i, n in sorted(adv, key=lambda x: x[2].get("l") or 0):
+        tgt = strip(n["L"] if n.get("k") == "Asg" else n["e"])
+        base = show(strip(strip(tgt["b"])["b"])) if strip(tgt["b"]).get("k") == "Mem" else show(strip(tgt["b"]))
+        decs = {b2.id for b2, i2, n2 in ei.nodes() if ((n2.get("k") == "Asg" and n2.get("op") == "-=") or (n2.get("k") == "Un" and n2.get("op") == "--")) and strip(n2["L"] if n2.get("k") == "Asg" else n2["e"]).get("k") == "Mem"
+                and strip(n2["L"] if n2.get("k") == "Asg" else n2["e"]).get("f") == "subtype" and show(strip(strip(n2["L"] if n2.get("k") == "Asg" else n2["e"])["b"])) == base}
+        sg = cfgq.switch_guard(ei, b.id)
+        run.need(sg is not None, "opcode case of the cursor advance")
+        p = None
+        before = any(ei.dominates(d, b.id) and ei.dominates(sg[0], d) and d != sg[0] for d in decs)
+        if b.id not in decs and not before:
+            p = ei.reach_avoiding(ei.blocks[b.id].live_succ(), lambda blk, t=sg[0]: blk.id == t, avoid_blocks=decs)
+        labs = sorted({(l.get("src") or l.get("k")) for l in (sg[1] if sg else []) if l})
+        run.ob("C01-l", "iterator-advance:%s:%d" % ("/".join(labs[:1]), ordl), p is None, "%s is followed by a decrement of %s->subtype on every path to the end of the opcode" % (show(n)[:40], base) if p is None else
+               "%s (line %s): path %s reaches the end of the opcode without decreasing %s->subtype - the loop then runs past the end of the string" % (show(n)[:40], n.get("l"), p[:8], base), ei.file, n.get("l"), "eval_instruction",
+               what="foreach over a string advances its byte cursor without counting the byte (invalid multibyte sequence or NUL): heap over-read handed to LPC code")
+        ordl += 1
